@@ -104,7 +104,11 @@ where
 
         // Rotate any desugared modifiers to the end of the list
         let modifiers = ["inv", "omit_fwd", "omit_inv"];
-        while modifiers.contains(&elements[0]) {
+        // (at most once around: The step may consist of modifiers only)
+        for _ in 0..elements.len() {
+            if !modifiers.contains(&elements[0]) {
+                break;
+            }
             elements.rotate_left(1);
         }
 
